@@ -1,5 +1,6 @@
 """Turn classified obligation results into VIOLATION / KNOWN-FINDING lines, replay files,
 the evidence file and the exit code."""
+import fnmatch
 import glob
 import json
 import os
@@ -139,7 +140,7 @@ def finish(prop, tier, seed, sel, results, log, t0, scratch, scratch_repo, skip_
             for f in r.failed_checks:
                 hit = None
                 for k in known:
-                    if k["property"] == prop and k["obligation"] == r.ob.name and k["match"] in f["description"]:
+                    if k["property"] == prop and fnmatch.fnmatch(r.ob.name, k["obligation"]) and k["match"] in f["description"]:
                         hit = k
                         break
                 if hit:
